@@ -940,8 +940,20 @@ func c10e(c *Ctx) {
 			if !ok || calleeName(call) != "builtin:append" || len(call.Call.Args) < 2 {
 				return false
 			}
-			t := c.term(fn, call.Call.Args[1])
-			return (strings.HasPrefix(t, "(*parser.Parser).parseStatement@") || strings.HasPrefix(t, "(*parser.Parser).parsePoryswitchStatement@")) && strings.HasSuffix(t, "#0")
+			// the appended list is a parse result, or a merge of parse results (one shared append
+			// after `if poryswitch { stmts, … = parsePoryswitchStatement() } else { … = parseStatement() }`)
+			var leaves []ssa.Value
+			phiLeaves(call.Call.Args[1], map[ssa.Value]bool{}, &leaves)
+			if len(leaves) == 0 {
+				return false
+			}
+			for _, lf := range leaves {
+				t := c.term(fn, lf)
+				if !((strings.HasPrefix(t, "(*parser.Parser).parseStatement@") || strings.HasPrefix(t, "(*parser.Parser).parsePoryswitchStatement@")) && strings.HasSuffix(t, "#0")) {
+					return false
+				}
+			}
+			return true
 		}
 		first := head.Instrs[0]
 		_, skip := existsPath(pathQuery{from: point{head, len(head.Instrs) - 1}, avoid: isAppend, edgeOK: notErrorEdge, target: func(in ssa.Instruction) bool { return in == first }})
